@@ -178,29 +178,37 @@ def _keys(ctx) -> None:
            message="an unsupported key type does not raise SerifTypeError (the assignment would silently do nothing)")
     # index branches: normalise + range check before append_update
     d = Defs(f)
-    adders = {n for n, lst in d.assigns.items() if any(isinstance(v, ast.Lambda) for v, _, _ in lst if v is not None)} | {"updates.append"}
+    adders = {n for n, lst in d.assigns.items() if any(isinstance(v, ast.Lambda) for v, _, _ in lst if v is not None)}
+    for n, lst in d.assigns.items():
+        for v, _, _ in lst:
+            if isinstance(v, ast.Lambda) and isinstance(v.body, ast.Call) and isinstance(v.body.func, ast.Attribute) and v.body.func.attr == "append":
+                adders.add(short(v.body.func))
+    nvars = [n for n, lst in d.assigns.items() if any(v is not None and short(v) == "len(self)" for v, _, _ in lst)]
+    if not nvars:
+        raise AnalysisError("Vector.__setitem__: the length local `n = len(self)` was not found")
+    nv = nvars[0]
     n_loops = 0
     for br in forms[3:5]:
         for lp in [s for s in walk_stmts(br.body) if isinstance(s, ast.For)]:
             n_loops += 1
             iv = lp.target.elts[0].id if isinstance(lp.target, ast.Tuple) else lp.target.id
-            problems = _index_checked(lp.body, iv, adders)
+            problems = _index_checked(lp.body, iv, adders, nv)
             ctx.ob("c.key-forms", f, f"index-loop:{n_loops}", not problems, f"index `{iv}` normalised and range-checked before it is recorded", lp,
                    message="; ".join(problems))
-    problems = _index_checked(forms[2].body, key, adders)
+    problems = _index_checked(forms[2].body, key, adders, nv)
     ctx.ob("c.key-forms", f, "int-branch", not problems, "integer key normalised and range-checked before it is recorded", forms[2],
            message="; ".join(problems))
     if n_loops != 4:
         raise AnalysisError(f"Vector.__setitem__: expected 4 index loops, found {n_loops}")
 
 
-def _index_checked(body: List[ast.stmt], iv: str, adders) -> List[str]:
+def _index_checked(body: List[ast.stmt], iv: str, adders, nv: str = "n") -> List[str]:
     seen_norm = seen_check = False
     probs = []
     for s in body:
-        if isinstance(s, ast.If) and short(s.test) == f"{iv} < 0" and len(s.body) == 1 and short(s.body[0]) == f"{iv} += n":
+        if isinstance(s, ast.If) and short(s.test) == f"{iv} < 0" and len(s.body) == 1 and short(s.body[0]) == f"{iv} += {nv}":
             seen_norm = True
-        elif isinstance(s, ast.If) and short(s.test) == f"not 0 <= {iv} < n" and isinstance(s.body[0], ast.Raise) \
+        elif isinstance(s, ast.If) and short(s.test) == f"not 0 <= {iv} < {nv}" and isinstance(s.body[0], ast.Raise) \
                 and "SerifIndexError" in short(s.body[0]):
             seen_check = True
         elif isinstance(s, ast.Expr) and isinstance(s.value, ast.Call) and (short(s.value.func) in adders):
@@ -243,7 +251,8 @@ def _table(ctx) -> None:
     problems = []
     for n in stores:
         t = n.ast.targets[0]
-        if not (isinstance(t.value, ast.Subscript) and short(t.value.value) == "self._underlying" and short(t.slice) == "row_spec"):
+        if not (isinstance(t.value, ast.Subscript) and short(t.value.value) == "self._underlying" and isinstance(t.slice, ast.Name)
+                and len({short(x.ast.targets[0].slice) for x in stores}) == 1):
             problems.append(f"`{short(n.ast, 60)}` is not a write of the addressed rows of one of the table's own columns")
     ctx.ob("f.table-delegation", f, "store-shape", not problems, f"{len(stores)} stores, each self._underlying[idx][row_spec] = value",
            stores[0].ast, message="; ".join(problems))
